@@ -1,4 +1,4 @@
-from ..rules import r_val, r_order, r_hdr
+from ..rules import r_val, r_order, r_hdr, r_key
 
 
 def run(prog, rep):
@@ -7,10 +7,12 @@ def run(prog, rep):
                        'creation-order index in increasing order, and every group / the file is created with tracked+indexed link '
                        'creation order (R-ORDER); (3) each backend has-query is decided by the same lookup as the getter, each index '
                        'getter is the by-name getter applied to the name of the i-th link, and the enumeration visits 0..count-1 in '
-                       'order without early exit (R-LOOKUP). Behaviour for particular name strings and libhdf5\'s own ordering are '
+                       'order without early exit (R-LOOKUP); (4) lookups always consult the file: backend classes own only handles, and a '
+                       'lookup table kept in a backend object must be emptied by every function that unlinks or renames (R-NOCACHE). Behaviour for particular name strings and libhdf5\'s own ordering are '
                        'not decided.')
     r_val.run(prog, rep)
     r_order.run_order(prog, rep)
     rule = rep.rule('R-ORDER-FILE', 'the file is created with tracked+indexed creation order (constructor abstraction)', floor=1)
     r_hdr.run_ctor(prog, rep, rule)
     r_order.run_lookup(prog, rep)
+    r_key.run_handles_only(prog, rep)
